@@ -32,7 +32,7 @@ def main():
     ids = sorted(d for d in os.listdir(os.path.join(ROOT, "seeded")) if os.path.isdir(os.path.join(ROOT, "seeded", d)))
     if sys.argv[1:]:
         ids = [i for i in ids if any(i.startswith(p) for p in sys.argv[1:])]
-    with concurrent.futures.ThreadPoolExecutor(4) as ex:
+    with concurrent.futures.ThreadPoolExecutor(int(os.environ.get("REGRESS_PAR", "4"))) as ex:
         for res in ex.map(one, ids):
             for line in res:
                 print(line, flush=True)
